@@ -106,6 +106,9 @@ class Types:
         if k == "Mixed":
             return Variant(TL, self.tln.index("List"), "List", [Variant(LT, self.ltn.index("Mixed"), "Mixed",
                                                                          [Tup([self.owned(self.build(x, tag + ".m%d" % i)) for i, x in enumerate(spec[1])])])])
+        if k == "MapOf":
+            kv = [self.build(spec[1], tag + ".mk"), self.build(spec[2], tag + ".mv")]     # Box<TypeLayout>: a box is its content
+            return Variant(TL, self.tln.index("Map"), "Map", [Variant("compiler::ast::map::MapType", 0, "MapType", kv)])
         if k == "Alias":
             return Variant(TL, self.tln.index("Alias"), "Alias", [Opaque(tag + ".alias-name"), self.owned(self.build(spec[1], tag + ".a"))])
         if k == "Cb":
@@ -134,6 +137,8 @@ def show(spec):
     if not isinstance(spec, tuple):
         return {"Map": "map[..]", "Class": "SomeClass"}.get(spec, spec.lower())
     k = spec[0]
+    if k == "MapOf":
+        return "map[%s, %s]" % (show(spec[1]), show(spec[2]))
     if k == "Opt":
         return show(spec[1]) + "?"
     if k == "Open":
